@@ -4,6 +4,7 @@ Consequence (clause `idleWait` at model level): backend never asks the poller to
 a complete command buffered.
 -/
 import NV.C12.Lemmas3
+import NV.C12.Props
 
 namespace NV.C12
 
@@ -142,7 +143,7 @@ theorem setCall_flag (w : World) (me : Nat) (single : Bool) (h : FlagSound w) : 
 theorem runOps_flag (sc : Scripts) (f : Nat) (w : World) (me : Nat) (ops : List Op) (h : FlagSound w) :
     FlagSound (runOps sc f w me ops).1 := by
   have := runOps_rel (fun a b => FlagSound a → FlagSound b) (fun _ hh => hh) (fun _ _ _ h1 h2 hh => h2 (h1 hh))
-    (fun _ _ hh => hh) (fun _ _ hh => hh) (fun w me s hh => setCall_flag w me s hh) sc f w me ops
+    (fun _ _ hh => hh) (fun _ _ hh => hh) (fun w me s hh => setCall_flag w me s hh) (fun _ hh => hh) sc f w me ops
   exact this h
 
 theorem puc_flag (sc : Scripts) (w : World) (h : FlagSound w) : FlagSound (processUserCommand sc w).1 := by
@@ -213,7 +214,9 @@ theorem step_flag (sc : Scripts) (w : World) (c : Cmd) (h : FlagSound w) : FlagS
   split
   · exact h
   · cases c with
-    | cycle => exact cycleStep_flag sc w h
+    | cycle =>
+      exact cycleRun_fold' sc (fun (s : Unit) _ => s) (fun _ w => FlagSound w) (fun _ w hh => cycleStep_flag sc w hh)
+        (fun _ _ hh => hh) (fun _ _ hh => hh) _ w () h
     | conn => exact h
     | send u d => dsimp only; split <;> exact h
     | close u => dsimp only; split <;> exact h
